@@ -173,6 +173,9 @@ def judge(case, ra, rb):
                 return ("rejected_div0_but_runtime:%s" % (ob[1] if ob[0] == "error" else "ok"),
                         "CONST rejected with DivisionByZero, but evaluating the expression at run time gives %s" % (ob,))
             return None
+        if ob[0] == "ok":
+            # the expression evaluates normally at run time, so the constant must exist and have that value
+            return ("rejected_%s_but_runtime_ok" % kind, "CONST rejected with %s, but the same expression evaluates at run time to %r" % (kind, (rb.get("run") or {}).get("stdout")))
         return ("OTHER_REJECTION", kind)
     # accepted
     if ob[0] == "error" and ob[1] in (6, 11) and oa != ob:
@@ -236,7 +239,7 @@ def main(tier, seed):
         PID, shard, params, tier, seed,
         min_evaluations=12000 if tier == "quick" else 250000,
         rule=RULE,
-        assumptions=["rejections of a constant expression with an error other than Overflow / DivisionByZero (e.g. TypeMismatch for AND/OR on non-INTEGER constants) are counted and listed, not judged: the property's iff-clause names only those two errors",
+        assumptions=["a constant expression rejected with an error other than Overflow / DivisionByZero is a violation when the same expression evaluates normally at run time; when the run-time evaluation fails too it is counted and listed, not judged",
                      "the run-time type is observed as the variant tag of register A at PrintValueFromA (hook H1)"],
     )
 
